@@ -82,22 +82,24 @@ PROPS = {
                    'interval arithmetic (Coq Interval 4.6) runs inside the kernel VM; exact reals, rounding not modelled.',
     ),
     'C20': dict(
-        own_files=['Lemmas/LC20.v', 'Lemmas/SwameeJain.v', 'Lemmas/LIl.v', 'Lemmas/LHe.v', 'Lemmas/LWS.v', 'Props/C20.v'],
+        own_files=['Lemmas/LC20.v', 'Lemmas/SwameeJain.v', 'Lemmas/LIl.v', 'Lemmas/LHe.v', 'Lemmas/LWS.v', 'Lemmas/LV50.v', 'Props/C20.v'],
         corr=[dict(script='corr_gen.py', n=250, n_thorough=5000,
                    args=['WilsonStratified.Vsm_max', 'WilsonStratified.Vsm_max_f', 'WilsonStratified.Cvr_max', 'WilsonStratified.Vsm',
                          'WilsonStratified.Vsm_f', 'WilsonStratified.Erhg', 'WilsonStratified.stratified_head_loss', 'WilsonV50.w',
                          'WilsonV50.sigma', 'WilsonV50.M', 'WilsonV50.V50', 'WilsonV50.Erhg', 'WilsonV50.heterogeneous_head_loss'])],
         search='C20.py', budget_quick=400, budget_thorough=20000,
-        partial=['C20_V50_terminates: that the 4-digit-agreement loop of V50 ends (exists fuel with a Some result) on E is not proved; searched only',
-                 'C20_V50_equation 0.5 %: proved is the exit condition (|ff_this - ff_last| < 1e-4 and the result is F applied to the last iterate); '
-                 'the step from there to |V50/F(V50) - 1| <= 0.5 % needs the friction-factor elasticity bound and is searched only',
+        partial=['C20 V50 termination and the 0.5 % reading of its fixed point are proved for steel roughness 0.045..0.1 mm (C20_V50_terminates, '
+                 'C20_V50_fuel_independent, C20_V50_equation: 0.1 %); for a smoother pipe (eps < 0.045 mm) the lower bound 0.01 of the friction '
+                 'factor, on which the proof rests, is not shown and the two clauses are searched only; the proof is over the reals: '
+                 'that binary64 rounding cannot make two iterates alternate between two 1e-4 bins for ever is not covered (searched with a '
+                 'wall-clock guard)',
                  'C20_ws_nonincreasing is proved on the liquid side of the envelope (turbulent branch); outside it (Re <= 2320) it is searched only'],
         level_text='Proof (all reals, regenerated model): 0 <= Vsm <= Vsm_max with and without the friction-factor alternative; Vsm at Cvr_max equals '
                    'Vsm_max within 0.2 % on both branches of Eqn 6.20-36 (the defect repaired by the fix: commit made the second branch false); '
-                   '0.05 <= Cvr_max <= 0.66; 0.25 <= M <= 1.7; the V50 loop, when it returns, returns F(last iterate) with the last two friction '
-                   'factors within 1e-4; both gradients exceed the water gradient; the V50 excess gradient does not rise with line speed.',
-        level_note='Termination of the V50 loop, the 0.5 % reading of its fixed point and the Wilson-stratified monotonicity are partial (search only). '
-                   'Model regenerated from the Python each run and executed bit-exactly against it (V50 with fuel 400).',
+                   '0.05 <= Cvr_max <= 0.66; 0.25 <= M <= 1.7; the V50 loop terminates on the envelope (monotone friction-factor map on [0.01, 0.036]: '
+                   'at most 360 bin changes; the result does not depend on the fuel) and its result satisfies V = F(V) within 0.1 %; '
+                   'both gradients exceed the water gradient; neither excess gradient rises with line speed.',
+        level_note='Model regenerated from the Python each run and executed bit-exactly against it (V50 with fuel 400).',
     ),
     'C05': dict(
         own_files=['Lemmas/LC05.v', 'Props/C05.v'],
@@ -222,12 +224,13 @@ PROPS = {
                    'max_steps in {0,1,3,10,20,50}.',
     ),
     'C12': dict(
-        own_files=['Lemmas/LC12.v', 'Lemmas/LC12b.v', 'Lemmas/LC12c.v', 'Lemmas/LC12d.v', 'Lemmas/LC12e.v', 'Lemmas/LMono.v', 'Props/C12.v'],
+        own_files=['Lemmas/LC12.v', 'Lemmas/LC12b.v', 'Lemmas/LC12c.v', 'Lemmas/LC12d.v', 'Lemmas/LC12e.v', 'Lemmas/LC12f.v', 'Lemmas/LMono.v', 'Props/C12.v'],
         corr=[dict(script='corr_slurry.py', n=60, n_thorough=1500, args=['--parts', 'fracs,getdx,regen'])],
         search='C12.py', budget_quick=400, budget_thorough=20000,
-        partial=['get_dx increasing over the whole of (0,1) is proved (C12_get_dx_increasing) for gradings with increasing fractions and positive '
-                 'increasing diameters; that every create_fracs output has positive diameters is immediate for the three-point input (it starts at '
-                 'dmin > 0 or at a power of ten) but is not restated as a closed corollary',
+        partial=['get_dx increasing over the whole of (0,1) is proved for every grading with increasing fractions and positive increasing '
+                 'diameters (C12_get_dx_increasing) and, as a closed corollary, for every grading create_fracs builds from a D15/D50/D85 input '
+                 'with D50 above the pseudo-liquid limit (C12_three_point_get_dx_increasing); for longer inputs it follows from C12_structure '
+                 'in the same way but is not restated',
                  'the 4-point inputs are covered by the general theorem C12_structure + C12_skip (any number of points); a closed corollary like '
                  'C12_three_point is written only for the 3-point input'],
         level_text='Proof (model of create_fracs, any number of input points and subdivisions): after discarding points below the pseudo-liquid limit '
@@ -278,14 +281,15 @@ PROPS = {
                    'class incl. foreign exception classes, and every loaded field). The search enumerates the faults on real files.',
     ),
     'C17': dict(
-        own_files=['Lemmas/LC17.v', 'Lemmas/LC17u.v', 'Props/C17.v'],
+        own_files=['Lemmas/LC17.v', 'Lemmas/LC17u.v', 'Lemmas/LC17b.v', 'Props/C17.v'],
         corr=[dict(script='corr_viewer.py', n=60, n_thorough=400)],
         search='C17.py', budget_quick=300, budget_thorough=6000,
         partial=['C17 no callback raises: proved for the bounded re-entry (a restored text re-enters its callback at most once); that the '
                  'library calls made by the callbacks and by the System tab (curve generation, operating point) do not raise is C02/C10 and is '
                  'observed on the real viewer by the event search, not proved here',
-                 'C17 plotted data equal a fresh slurry: in the model this is C07 applied to the viewer\'s slurry (every event is a sequence '
-                 'of SlurryState operations ending in a read of the curves); the composition is not restated as a C17 theorem; the search '
+                 'C17 plotted data equal a fresh slurry: proved that after every event the cached tables are generate_curves of the current '
+                 'parameters and the current stored grading (C17_plots_current, for the whole session and every saved pipeline); that the '
+                 'stored grading equals the freshly built one is C07_fresh and the two are not composed into one statement; the search '
                  'compares every data source with a freshly built Slurry after every event',
                  'C17 System-tab displays and per-section slurries: the unit factors are proved (0.2 %), the Dp-reset rule is in the model; '
                  'the System tab\'s formatting of each display and the per-diameter copies (C09) are checked on the real viewer by the search',
@@ -298,7 +302,8 @@ PROPS = {
                    'accept/reject; an accepted entry sets exactly its own model field(s), a rejected one leaves every parameter unchanged '
                    '(re-entrant callback included); for every event sequence 25 <= Dp*1000 <= 1500, 1.5 <= rhos <= 7, Cv <= 0.5 and Dp is a '
                    'section diameter in every pipeline; Cv >= 0.01 except through the mixture-density box (exact condition proved); after every '
-                   'event every box shows the formatted model value; a restored text re-enters its callback at most once; US unit factors '
+                   'event every box shows the formatted model value and the cached curve tables are those of the current parameters and grading '
+                   '(cache coherence is an invariant of every saved pipeline); a restored text re-enters its callback at most once; US unit factors '
                    'within 0.2 % of the exact conversions, SI factors exact.',
         level_note='Model compared bit-exactly (parameters, D15/D85, fluid, radio button and the text of all seven boxes) with the real main.py + '
                    'SystemTab.py under the bokeh double tools/fakebokeh on event sequences (singles, pairs, random depth 15). The search runs '
